@@ -39,6 +39,22 @@ class Runaway(Exception):
     code under test, reported by the caller as a violation."""
 
 
+TAG_EXP = False      # set (harness.scripted.tagged()) by the decision-tree walks that compare clock rates and probabilities
+
+
+class tagged(object):
+    """context manager: waiting times handed out by the scripted expovariate are ExpDraw objects"""
+    def __enter__(self):
+        global TAG_EXP
+        self.old = TAG_EXP
+        TAG_EXP = True
+
+    def __exit__(self, *a):
+        global TAG_EXP
+        TAG_EXP = self.old
+        return False
+
+
 class ExpDraw(float):
     """A waiting time handed out by the scripted expovariate during a decision-tree walk.  The walk gives every
     waiting time the same nominal value, which is harmless as long as a waiting time is only ADDED to the clock
@@ -232,7 +248,7 @@ class Source(object):
             raise Runaway("more than %d waiting-time draws in one run" % self.max_exp)
         if rate == 0.0:
             raise ZeroDivisionError("float division by zero")  # what random.expovariate does
-        d = ExpDraw(1.0) if self.delays is None else self.delays(k, rate)
+        d = (ExpDraw(1.0) if TAG_EXP else 1.0) if self.delays is None else self.delays(k, rate)
         self.tape.append(("exp", rate, float(d), None))
         return d
 
